@@ -221,7 +221,9 @@ bool AngularObservations_right_handed_angles(const struct PointData *self);
    the _val contracts write the symbols with the same (under the preconditions: dead) case split.  The structure
    check proves, with SAT, that each hint EQUALS the plain symbol (HINTS_EQ), so nothing is weakened.            */
 #define DISTX(i) (P.sqrt_ret[i] < 1e-6 ? 0.0 : P.sqrt_ret[i])
-#define BRGX(i) (P.sqrt_ret[i] < 1e-6 ? 0.0 : ((!(P.sqrt_ret[i] < 1e-6) && !(G.brg0[i] >= 2 * M_PI)) ? G.brg0[i] : 0.0)) /* the merge of the two early exits exactly as CBMC builds it; G.brg0[i] == BRG0(i) is part of HINTS_EQ */
+#define BRGX_(i, B0) (P.sqrt_ret[i] < 1e-6 ? 0.0 : ((!(P.sqrt_ret[i] < 1e-6) && !(B0 >= 2 * M_PI)) ? B0 : 0.0)) /* the merge of the two early exits exactly as CBMC builds it */
+#define BRGX(i) BRGX_(i, G.brg0[i])   /* for postconditions: over the ghost VARIABLE recorded by the atan2 stub (G.brg0[i] == BRG0(i) is part of HINTS_EQ) */
+#define BRGX_IN(i) BRGX_(i, BRG0(i))  /* for preconditions: over the inputs only (ghost state is not yet written at entry) */
 #define ORIX(o) (SP(o)->test_or ? SP(o)->attr_or : 0.0)
 #define HINTS_EQ(i) (DISTX(i) == P.sqrt_ret[i] && G.brg0[i] == BRG0(i) && BRGX(i) == BRG(i))
 /* sin and cos were applied to the bearing of call #i */
@@ -313,8 +315,9 @@ bool AngularObservations_right_handed_angles(const struct PointData *self);
 #define REDUCED(L) ((G.j1 == 0 || G.j2 == 0) && 0 <= G.j1 && G.j1 <= 3 && 0 <= G.j2 && G.j2 <= 3 &&          \
                     (L)->rhs == ADDN(SUBN(G.raw, G.j1), G.j2) && -200e4 <= (L)->rhs && (L)->rhs <= 200e4)
 
-/* Instantiation of the stated precondition RAW_OK(<misclosure expression over the inputs>) at the variable the
-   reduction loops start from.  The _val check (cvc5) proves `a == spec` BEFORE anything is assumed; the structure
+/* Instantiation of the stated precondition RAW_OK(RAW_x_IN) (misclosure expression over the inputs) at the variable the
+   reduction loops start from.  RAW_x (what `a` is proved equal to) and RAW_x_IN are the same expression up to the ghost
+   variables G.brg0[i] / G.north, which the structure check proves equal to BRG0(i) / NORTH_GON*G2R (congruence).  The _val check (cvc5) proves `a == spec` BEFORE anything is assumed; the structure
    check (SAT) then uses RAW_OK(a).  (SAT cannot connect two multiplier circuits, cvc5 sees the same term.)    */
 #if LIN_VALUES
 #define LIN_INST_RAW(a, spec) do { __CPROVER_assert((a) == (spec), "instantiation index in range: loops start from the misclosure that the precondition bounds"); \
@@ -457,10 +460,12 @@ GV_CANARY("LocalLinearization_distance entry");
 __CPROVER_requires(SHAPE2(self, obs) && NONSING(0) && TRIG(0))
 __CPROVER_requires(__CPROVER_rw_ok(SP(obs), sizeof(struct StandPoint)) && !SAME(SP(obs), self) && !SAME(SP(obs), self->PD) && !SAME(SP(obs), obs))
 __CPROVER_requires(FIN(SP(obs)->attr_or, 1e12))
-#define RAW_direction ((VALUE(obs) + ORIX(obs) - BRGX(0)) * R2CC)
+#define RAW_direction_(BX) ((VALUE(obs) + ORIX(obs) - BX(0)) * R2CC)
+#define RAW_direction RAW_direction_(BRGX)
+#define RAW_direction_IN RAW_direction_(BRGX_IN)
 #if LIN_VALUES
 __CPROVER_requires(SP(obs)->test_or) /* the exception path is covered by the structure check */
-__CPROVER_requires(RAW_OK(RAW_direction)) /* stated precondition, used through LIN_INST_RAW */
+__CPROVER_requires(RAW_OK(RAW_direction_IN)) /* stated precondition (over the inputs), used through LIN_INST_RAW */
 #endif
 __CPROVER_requires(PRE_UNK5(U_OR, U_FX, U_FY, U_TX, U_TY))
 __CPROVER_assigns(self->rhs, self->size, self->maxn, self->coeff, self->index, G, gv_exc, SP(obs)->indx_or,
@@ -495,7 +500,7 @@ __CPROVER_decreases(3 - G.j1)
 G.j1++;
 //@ loop LocalLinearization_direction 2
 __CPROVER_assigns(a, G.j2)
-__CPROVER_loop_invariant(0 <= G.j2 && G.j2 <= 3 && (G.j1 == 0 || G.j2 == 0) && a == ADDN(SUBN(G.raw, G.j1), G.j2) && a <= 200e4)
+__CPROVER_loop_invariant(0 <= G.j2 && G.j2 <= 3 && (G.j1 == 0 || G.j2 == 0) && a == ADDN(SUBN(G.raw, G.j1), G.j2) && a <= 200e4 && (G.j2 > 0 ==> a < 200e4))
 __CPROVER_decreases(3 - G.j2)
 //@ tail LocalLinearization_direction 2
 G.j2++;
@@ -544,6 +549,9 @@ __CPROVER_requires(SHAPE2(self, obs) && ZD <= 1e10 && ZSD <= 1e10 && PRE_UNK6(U_
 #if LIN_VALUES
 __CPROVER_requires(!(ZD == 0) && !(ZSD == 0)) /* the exception path is covered by the structure check */
 __CPROVER_requires(ZD >= 1e-6 && ZSD >= 1e-6)  /* non-singular (not a vertical sight): no overflow in k */
+#ifdef LIN_EXCL_FACE2
+__CPROVER_requires(!(VALUE(obs) > M_PI)) /* exclusion predicate of the known finding "second-face zenith angle": first-face readings only */
+#endif
 #endif
 __CPROVER_assigns(self->rhs, self->size, self->maxn, self->coeff, self->index, G, gv_exc, F0->ix_, F0->iy_, F0->iz_,
                   T0->ix_, T0->iy_, T0->iz_)
@@ -572,9 +580,11 @@ GV_CANARY("LocalLinearization_z_angle entry");
    Stated precondition: from, bs, fs pairwise distinct (gama allows bs == fs since 1.3.31; then the row lists the
    target's unknowns twice with cancelling coefficients -- not covered here).                              */
 //@ contract LocalLinearization_angle
-#define ANG_DS0 (BRGX(1) - BRGX(0))
-#define ANG_DS (ANG_DS0 < 0 ? ANG_DS0 + 2 * M_PI : ANG_DS0)
-#define RAW_angle ((VALUE(obs) - ANG_DS) * R2CC)
+#define ANG_DS0(BX) (BX(1) - BX(0))
+#define ANG_DS(BX) (ANG_DS0(BX) < 0 ? ANG_DS0(BX) + 2 * M_PI : ANG_DS0(BX))
+#define RAW_angle_(BX) ((VALUE(obs) - ANG_DS(BX)) * R2CC)
+#define RAW_angle RAW_angle_(BRGX)
+#define RAW_angle_IN RAW_angle_(BRGX_IN)
 #define K1C1 (KANG(DISTX(0)) * P.C[0])
 #define K1S1 (KANG(DISTX(0)) * P.S[0])
 #define K2C2 (KANG(DISTX(1)) * P.C[1])
@@ -582,7 +592,7 @@ GV_CANARY("LocalLinearization_z_angle entry");
 __CPROVER_requires(SHAPE3(self, obs) && NONSING(0) && NONSING(1) && TRIG(0) && TRIG(1))
 __CPROVER_requires(PRE_UNK6(U_FX, U_FY, U_TX, U_TY, U_SX, U_SY))
 #if LIN_VALUES
-__CPROVER_requires(RAW_OK(RAW_angle)) /* stated precondition, used through LIN_INST_RAW */
+__CPROVER_requires(RAW_OK(RAW_angle_IN)) /* stated precondition (over the inputs), used through LIN_INST_RAW */
 #endif
 __CPROVER_assigns(self->rhs, self->size, self->maxn, self->coeff, self->index, G, F0->ix_, F0->iy_, T0->ix_, T0->iy_, S0->ix_, S0->iy_)
 #if LIN_VALUES
@@ -614,7 +624,7 @@ __CPROVER_decreases(3 - G.j1)
 G.j1++;
 //@ loop LocalLinearization_angle 2
 __CPROVER_assigns(a, G.j2)
-__CPROVER_loop_invariant(0 <= G.j2 && G.j2 <= 3 && (G.j1 == 0 || G.j2 == 0) && a == ADDN(SUBN(G.raw, G.j1), G.j2) && a <= 200e4)
+__CPROVER_loop_invariant(0 <= G.j2 && G.j2 <= 3 && (G.j1 == 0 || G.j2 == 0) && a == ADDN(SUBN(G.raw, G.j1), G.j2) && a <= 200e4 && (G.j2 > 0 ==> a < 200e4))
 __CPROVER_decreases(3 - G.j2)
 //@ tail LocalLinearization_angle 2
 G.j2++;
@@ -636,10 +646,12 @@ GV_CANARY("PointData_xNorthAngle entry");
    check proves N == NORTH_GON * G2R for the coordinate system at hand, check xNorthAngle proves it for the function
    in isolation.                                                                                          */
 //@ contract LocalLinearization_azimuth
-#define RAW_azimuth ((VALUE(obs) + G.north - BRGX(0)) * R2CC)
+#define RAW_azimuth_(N, BX) ((VALUE(obs) + N - BX(0)) * R2CC)
+#define RAW_azimuth RAW_azimuth_(G.north, BRGX)
+#define RAW_azimuth_IN RAW_azimuth_(NORTH_GON(self->PD) * G2R, BRGX_IN)
 __CPROVER_requires(SHAPE2(self, obs) && CS_OK(self->PD) && NONSING(0) && TRIG(0) && PRE_UNK4(U_FX, U_FY, U_TX, U_TY))
 #if LIN_VALUES
-__CPROVER_requires(RAW_OK(RAW_azimuth)) /* stated precondition, used through LIN_INST_RAW */
+__CPROVER_requires(RAW_OK(RAW_azimuth_IN)) /* stated precondition (over the inputs), used through LIN_INST_RAW */
 #endif
 __CPROVER_assigns(self->rhs, self->size, self->maxn, self->coeff, self->index, G, F0->ix_, F0->iy_, T0->ix_, T0->iy_)
 #if LIN_VALUES
@@ -671,7 +683,7 @@ __CPROVER_decreases(3 - G.j1)
 G.j1++;
 //@ loop LocalLinearization_azimuth 2
 __CPROVER_assigns(a, G.j2)
-__CPROVER_loop_invariant(0 <= G.j2 && G.j2 <= 3 && (G.j1 == 0 || G.j2 == 0) && a == ADDN(SUBN(G.raw, G.j1), G.j2) && a <= 200e4)
+__CPROVER_loop_invariant(0 <= G.j2 && G.j2 <= 3 && (G.j1 == 0 || G.j2 == 0) && a == ADDN(SUBN(G.raw, G.j1), G.j2) && a <= 200e4 && (G.j2 > 0 ==> a < 200e4))
 __CPROVER_decreases(3 - G.j2)
 //@ tail LocalLinearization_azimuth 2
 G.j2++;
